@@ -179,7 +179,10 @@ static std::string run_child(const J &plan, int verbose, const char *trace_path,
 	close(pfd[0]);
 	int st = 0;
 	waitpid(pid, &st, 0);
-	if (!out.empty() && out.back() == '\n' && WIFEXITED(st) && WEXITSTATUS(st) == 0) { out.pop_back(); return out; }
+	if (!out.empty() && out.back() == '\n' && WIFEXITED(st) && WEXITSTATUS(st) == 0) {
+		char path[300]; snprintf(path, sizeof path, "%s.%d", logbase, (int)pid); unlink(path);      // ASan's makecontext warning, nothing else
+		out.pop_back(); return out;
+	}
 	// abnormal end: classify
 	J r = J::obj();
 	r.set("scenario", plan.gets("scenario")); r.set("seed", (long long)plan.geti("seed"));
